@@ -10,7 +10,7 @@
    each shows, by a concrete witness, that the corresponding full statement ("accepted exactly when NumPy accepts")
    is false of the code; the `_den` / `_partial` theorem beside it is the proved part. *)
 From Coq Require Import ZArith List Bool Sorting.Sorted.
-From Verif Require Import Py Shape COO COOP G_shapeops ShapeOps NpShapeOps ShapeOpsP.
+From Verif Require Import Py Shape COO COOP GCXS Convert ConvertG G_shapeops ShapeOps NpShapeOps ShapeOpsP ShapeOpsG ShapeOpsGP.
 Import ListNotations.
 Open Scope Z_scope.
 
@@ -457,3 +457,102 @@ Theorem broadcast_to_fewer_dims_refuted :
       canonical Z x /\ np_broadcast_ok (c_shape x) target = false /\ coo_broadcast_to x target = Ok r.
 Proof. exact broadcast_to_fewer_dims_refuted_proof. Qed.
 Print Assumptions broadcast_to_fewer_dims_refuted.
+
+(* ------------------------------------------------------------------------------------------------------------
+   GCXS (Model/ShapeOpsG.v over the generated call-site functions Gen/S_shapeops.v).  A GCXS array is taken in the
+   form property C05 establishes for every array the library builds: g = _from_coo c ca for a canonical COO array c
+   (C05: gcxs_from_coo_wf / gcxs_from_coo_den).  `axes_ok sh ca`: fewer than 2 axes, or ca is a valid choice of
+   compressed axes.  The representation theorems say that GCXS.transpose / reshape return EXACTLY (data, indices,
+   indptr, compressed axes) the compressed form of what COO.transpose / reshape return, and raise when they raise. *)
+
+(* GCXS.transpose: identity (return self), _2d_transpose (2-d: the same three arrays reinterpreted), and the n-d
+   path through _transpose/_convert_coords(transpose=True) with compressed_axes=(argmin(shape),) *)
+Theorem gcxs_transpose_repr :
+  forall (V : Type) (c : coo V) (ca : list Z) (axes : option (list Z)),
+    canonical V c ->
+    shape_ok (c_shape c) ->
+    axes_ok (c_shape c) ca ->
+    (forall c' : coo V,
+     coo_transpose c axes = Ok c' ->
+     exists ca' : list Z,
+       gcxs_transpose (gcxs_from_coo c ca) axes = Ok (gcxs_from_coo c' ca') /\ axes_ok (c_shape c') ca') /\
+    (forall e : exc, coo_transpose c axes = Raise e -> gcxs_transpose (gcxs_from_coo c ca) axes = Raise e).
+Proof. exact gcxs_transpose_repr_proof. Qed.
+Print Assumptions gcxs_transpose_repr.
+
+(* ... hence well-formed (gcxs_wfb) with NumPy's dense meaning *)
+Theorem gcxs_transpose_den :
+  forall (V : Type) (c : coo V) (ca : list Z) (axes : option (list Z)) (r : gcxs V),
+    canonical V c ->
+    shape_ok (c_shape c) ->
+    axes_ok (c_shape c) ca ->
+    gcxs_transpose (gcxs_from_coo c ca) axes = Ok r ->
+    let perm := tr_perm (ndim c) axes in
+    tr_valid (ndim c) axes /\
+    gcxs_wfb r = true /\
+    g_shape r = np_transpose_shape (c_shape c) perm /\
+    g_fill r = c_fill c /\
+    (forall ix : idx,
+     in_range (g_shape r) ix -> gden r ix = np_transpose perm (gden (gcxs_from_coo c ca)) ix).
+Proof. exact gcxs_transpose_den_proof. Qed.
+Print Assumptions gcxs_transpose_den.
+
+(* GCXS.reshape / flatten, source and target with at least one axis (0-d GCXS is finding zero_dim_gcxs_dok_input):
+   return self; n-d -> n-d through _transpose/_convert_coords(transpose=False); n-d -> 1-d through _c_ordering;
+   1-d -> n-d through _1d_reshape/_linearize; compressed axes kept when ndim is kept, else (argmin(shape),) *)
+Theorem gcxs_reshape_repr :
+  forall (V : Type) (c : coo V) (ca new : list Z),
+    canonical V c ->
+    shape_ok (c_shape c) ->
+    axes_ok (c_shape c) ca ->
+    (1 <= length (c_shape c))%nat ->
+    (forall c' : coo V,
+     coo_reshape c new = Ok c' ->
+     (1 <= length (c_shape c'))%nat ->
+     exists ca' : list Z,
+       gcxs_reshape (gcxs_from_coo c ca) new = Some (Ok (gcxs_from_coo c' ca')) /\
+       axes_ok (c_shape c') ca') /\
+    (forall e : exc, coo_reshape c new = Raise e -> gcxs_reshape (gcxs_from_coo c ca) new = Some (Raise e)).
+Proof. exact gcxs_reshape_repr_proof. Qed.
+Print Assumptions gcxs_reshape_repr.
+
+Theorem gcxs_reshape_den :
+  forall (V : Type) (c : coo V) (ca new : list Z) (r : gcxs V),
+    canonical V c ->
+    shape_ok (c_shape c) ->
+    axes_ok (c_shape c) ca ->
+    (1 <= length (c_shape c))%nat ->
+    gcxs_reshape (gcxs_from_coo c ca) new = Some (Ok r) ->
+    (1 <= length (g_shape r))%nat ->
+    gcxs_wfb r = true /\
+    size (g_shape r) = size (c_shape c) /\
+    g_fill r = c_fill c /\
+    ((count_m1 new <= 1)%nat -> np_reshape_target (c_shape c) new = Ok (g_shape r)) /\
+    (forall ix : idx,
+     in_range (g_shape r) ix ->
+     gden r ix = np_reshape (c_shape c) (g_shape r) (gden (gcxs_from_coo c ca)) ix).
+Proof. exact gcxs_reshape_den_proof. Qed.
+Print Assumptions gcxs_reshape_den.
+
+(* broadcast_arrays: np.broadcast_shapes of the operands' shapes is a target every operand broadcasts to, so each
+   output is covered by broadcast_to_den *)
+Theorem broadcast_arrays_link :
+  forall (shapes : list shape) (t : shape),
+    Forall shape_ok shapes ->
+    np_broadcast_shapes shapes = Some t -> Forall (fun s : shape => np_broadcast_ok s t = true) shapes.
+Proof. exact broadcast_arrays_link_proof. Qed.
+Print Assumptions broadcast_arrays_link.
+
+(* moveaxis: NumPy's insertion algorithm (moveaxis_order, which moveaxis_den is stated about) computes the declarative
+   permutation np_moveaxis_perm — for every array of at most 5 axes, the scope of the property (the bound is in the
+   statement: the proof evaluates all 32,827 (source, destination) pairs) *)
+Theorem moveaxis_order_spec_upto_5d :
+  forall (nd : Z) (src dst : list Z),
+    0 <= nd <= 5 ->
+    NoDup src ->
+    NoDup dst ->
+    length src = length dst ->
+    (forall a : Z, In a src -> 0 <= a < nd) ->
+    (forall a : Z, In a dst -> 0 <= a < nd) -> moveaxis_order nd src dst = np_moveaxis_perm nd src dst.
+Proof. exact moveaxis_order_spec_upto_5d_proof. Qed.
+Print Assumptions moveaxis_order_spec_upto_5d.
